@@ -56,7 +56,28 @@ def corpora(chk, prop, tier, wd):
             if not has_start(start):
                 continue
             jobs.append(lambda start=start, free=free, bq=bq, bt=bt: generate(chk, start, bq if tier == "quick" else bt, start, free, wd))
-    return common.parallel(jobs, 4)
+    outs = common.parallel(jobs, 4)
+    if tier == "thorough" and prop != "C07":
+        # random deep derivations beyond the exhaustive budget (TLC -simulate on the same specification)
+        for (start, free) in (("E12", False), ("QueryStatement", False), ("DDL", True), ("DML", True)):
+            outs.append(simulate(chk, start, free, wd))
+    if tier == "thorough" and prop == "C07":
+        outs.append(simulate(chk, "E12", False, wd, opsonly=True, leafalts=False))
+    return outs
+
+
+def simulate(chk, start, free, wd, num=4000, budget=7, **kw):
+    name = "sim-" + start
+    out = os.path.join(wd, "tapes-%s.ndjson" % name)
+    if os.path.exists(out):
+        os.remove(out)
+    r = common.tlc("Grammar", cfg_text(budget, start, free, out, **kw), os.path.join(wd, "gen-" + name), workers=8, heap="6g", timeout=3000,
+                   simulate="num=%d" % (num // 8), extra=["-depth", "400", "-seed", str(common.seed())], name="Grammar_" + name)
+    n = sum(1 for _ in open(out)) if os.path.exists(out) else 0
+    if n == 0:
+        raise Infra("simulation produced no derivation: %s" % r.output[-1500:])
+    chk.notes.setdefault("generated", {})[name] = {"budget": budget, "mode": "simulate", "sentences": n}
+    return out, n
 
 
 def has_start(start):
@@ -161,7 +182,14 @@ def run(prop, tier):
     chk.cov["rule"] = ("every derivation of the reference grammar G within the budget (= number of non-default choices: template, optional clause, list length, flag, enum value, "
                        "surface variant, leaf spelling) from every start symbol, one tape each; each tape is rendered (several trivia/case profiles where the property needs them) and "
                        "replayed into the real entry point; all sentences are distinct derivations")
-    chk.notes["node_kinds_reached"] = len(kinds)
+    chk.notes["node_kinds_reached"] = len([k for k in kinds if not k.startswith("posl:")])
+    try:
+        import re
+        allk = re.findall(r"^type (\w+) struct \{", open(os.path.join(common.REPO, "ast", "ast.go")).read(), re.M)
+        chk.notes["node_kinds_total"] = len(allk)
+        chk.notes["node_kinds_not_reached"] = sorted(k for k in allk if k not in kinds)
+    except Exception:
+        pass
     chk.notes["model_deviations"] = model_dev
     # confirm in a fresh process: re-run the tapes of the findings only
     confirmed = confirm(prop, tier, all_findings, wd)
